@@ -45,6 +45,26 @@ fn c02_wilson_domain_all_usize() {
     }
 }
 
+// outcome classes only (cheap: the float formula never has to be evaluated to decide them), for every (n, k) in usize x usize --
+// in particular beyond 2^53, where a guard written on the f64 conversions of the counts stops being exact (seeded change C03-H:
+// `n_f < 2.` accepts one failure at n = 2^53 + 3). Part of the quick tier of C02 and C03 (the quantile ranks rest on it).
+#[kani::proof]
+#[kani::stub(<Normal as ContinuousCDF<f64, f64>>::inverse_cdf, icdf_n_stub)]
+fn c02_wilson_outcome_class_all_usize() {
+    let n: usize = kani::any();
+    let k: usize = kani::any();
+    let conf = any_conf_practical();
+    kani::cover!(n > (1usize << 53) && k == n - 1, "one failure beyond 2^53");
+    kani::cover!(n > (1usize << 53) && k >= 2 && k <= n && n - k >= 2, "admissible counts beyond 2^53");
+    match ci_wilson(conf, n, k) {
+        Err(CIError::InvalidSuccesses(a, b)) => assert!(k > n && a == k && b == n, "C02:wilson:domain:invalid-successes"),
+        Err(CIError::TooFewSuccesses(a, b, _)) => assert!(k <= n && k < 2 && a == k && b == n, "C02:wilson:domain:too-few-successes"),
+        Err(CIError::TooFewFailures(a, b, _)) => assert!(k <= n && k >= 2 && n - k < 2 && a == n - k && b == n, "C02:wilson:domain:too-few-failures"),
+        Err(CIError::IntervalError(_)) | Ok(_) => assert!(k >= 2 && k <= n && n - k >= 2, "C02:wilson:domain:ok-outside-domain"),
+        Err(_) => assert!(false, "C02:wilson:domain:undocumented-error-variant"),
+    }
+}
+
 // Wald variant: no panic, no NaN, documented variants, for every (n, k) in usize x usize
 #[kani::proof]
 #[kani::stub(<Normal as ContinuousCDF<f64, f64>>::inverse_cdf, icdf_n_stub)]
